@@ -75,15 +75,9 @@ fn ordinal_of_decimal(digits: &[char]) -> &'static str {
     }
 }
 
-/// the context class for which C17_lint_iff is proved (mirrors Number.ctx_ok; kept in sync by the `C` cases)
+/// the context class for which C17_lint_iff is proved (mirrors Number.ctx_ok; kept in sync by the `C` cases).
+/// Since dcfd71f a right context may start with an apostrophe (`2st's`): the class no longer excludes it.
 fn ctx_covered(cl: &mut Classes, pre: &[char], num: &[char], sfx: &[char], post: &[char]) -> bool {
-    ctx_covered_opt(cl, pre, num, sfx, post, true)
-}
-fn is_apostrophe(c: char) -> bool {
-    c == '\'' || c == '\u{2019}'
-}
-fn ctx_covered_opt(cl: &mut Classes, pre: &[char], num: &[char], sfx: &[char], post: &[char], apostrophe_rule: bool) -> bool {
-    let apostrophe = |c: char| apostrophe_rule && is_apostrophe(c);
     let label = |c: char| c.is_ascii_alphanumeric() || c == '-';
     for &c in pre {
         if cl.bits(c) & 1 != 0 || c == '[' || c == '@' {
@@ -101,7 +95,7 @@ fn ctx_covered_opt(cl: &mut Classes, pre: &[char], num: &[char], sfx: &[char], p
         }
     }
     if let Some(&c) = post.first() {
-        if cl.bits(c) & 4 != 0 || c.is_ascii_digit() || apostrophe(c) {
+        if cl.bits(c) & 4 != 0 || c.is_ascii_digit() {
             return false;
         }
     }
@@ -117,6 +111,70 @@ fn ctx_covered_opt(cl: &mut Classes, pre: &[char], num: &[char], sfx: &[char], p
         }
     }
     true
+}
+
+/// SEARCH ONLY (no theorem): contexts that contain OTHER numbers, each of them a correct ordinal standing alone
+/// between white space (`We finished 1st in May and <n><sfx> in June, 3rd overall.`).  Such a neighbour draws no
+/// lint, so the verdict on the instance must be the one of the same context with every neighbour replaced by the
+/// word `x`; that masked context must be inside the covered class.
+fn ctx_extended(cl: &mut Classes, pre: &[char], num: &[char], sfx: &[char], post: &[char]) -> bool {
+    fn mask(cl: &mut Classes, t: &[char], masked: &mut usize) -> Option<Vec<char>> {
+        let mut out = Vec::new();
+        let mut i = 0;
+        while i < t.len() {
+            if t[i].is_whitespace() {
+                out.push(t[i]);
+                i += 1;
+                continue;
+            }
+            let mut j = i;
+            while j < t.len() && !t[j].is_whitespace() {
+                j += 1;
+            }
+            let chunk = &t[i..j];
+            if chunk.iter().any(|c| cl.bits(*c) & 1 != 0) {
+                // a neighbour must stand alone between white space (not glued to the instance)
+                let mut core = chunk;
+                let mut tail: &[char] = &[];
+                if let Some(l) = core.last() {
+                    if ".,;:!?".contains(*l) {
+                        tail = &core[core.len() - 1..];
+                        core = &core[..core.len() - 1];
+                    }
+                }
+                if core.len() < 3 || core.len() > 17 {
+                    return None;
+                }
+                let (d, x) = core.split_at(core.len() - 2);
+                if !d.iter().all(|c| c.is_ascii_digit()) {
+                    return None;
+                }
+                let xs: String = x.iter().collect::<String>().to_lowercase();
+                if xs != ordinal_of_decimal(d) {
+                    return None;
+                }
+                out.push('x');
+                out.extend_from_slice(tail);
+                *masked += 1;
+            } else {
+                out.extend_from_slice(chunk);
+            }
+            i = j;
+        }
+        Some(out)
+    }
+    // the instance itself is separated from its neighbours by white space somewhere in between
+    if pre.last().map(|c| cl.bits(*c) & 1 != 0).unwrap_or(false) {
+        return false;
+    }
+    let glued_left = pre.iter().rev().take_while(|c| !c.is_whitespace()).any(|c| cl.bits(*c) & 1 != 0);
+    let glued_right = post.iter().take_while(|c| !c.is_whitespace()).any(|c| cl.bits(*c) & 1 != 0);
+    if glued_left || glued_right {
+        return false;
+    }
+    let mut masked = 0usize;
+    let (Some(mp), Some(mq)) = (mask(cl, pre, &mut masked), mask(cl, post, &mut masked)) else { return false };
+    masked > 0 && ctx_covered(cl, &mp, num, sfx, &mq)
 }
 
 // ------------------------------------------------------------------------------------------------
@@ -283,6 +341,33 @@ fn run_case(im: &mut Impl, s: &Spec) -> Outcome {
                 Err(_) => "P".into(),
             };
             o.cases.push((format!("T {} | {}", cps_line(&chars), table), line));
+            // two postconditions of the lexer that the model of the value / of the word boundaries relies on
+            // (b5c1992, 7202fd4); both hold by construction of the current lexer, a violation is reported with
+            // the text as a concrete input
+            if let Ok(ts) = &raw {
+                for t in ts {
+                    // (1) a Number token's value is a finite f64 (the model's values are VInt n | VOther-finite;
+                    //     a non-finite value with a suffix is silently never judged: `1e999st`)
+                    if let TokenKind::Number(nm) = &t.kind {
+                        o.monitors.push(("number_values_finite", 1));
+                        if !nm.value.0.is_finite() {
+                            let lit: String = chars[t.span.start.min(chars.len())..t.span.end.min(chars.len())].iter().collect();
+                            o.fails.push(("nonfinite_number_token", format!("the literal `{lit}` at {}..{} is lexed as a Number whose value is not finite ({})", t.span.start, t.span.end, nm.value.0)));
+                        }
+                    }
+                    // (2) a Word token is maximal: it is never directly followed by a word character or an ASCII
+                    //     digit (lex_word runs to the first other character; lex_plural_digit only answers in front
+                    //     of a non-alphanumeric character) — ctx_ok describes word boundaries by characters
+                    if matches!(t.kind, TokenKind::Word(_)) && t.span.end < chars.len() {
+                        o.monitors.push(("word_tokens_maximal", 1));
+                        let c = chars[t.span.end];
+                        if c.is_ascii_digit() || im.classes.bits(c) & 4 != 0 {
+                            let w: String = chars[t.span.start..t.span.end].iter().collect();
+                            o.fails.push(("word_split_before_letter", format!("the Word token `{w}` at {}..{} ends directly in front of the word character {c:?}", t.span.start, t.span.end)));
+                        }
+                    }
+                }
+            }
             // monitor: no pass of Document::parse deletes or alters a Number token (other than attaching a suffix)
             if let Ok(ts) = &raw {
                 let rn: Vec<&Token> = ts.iter().filter(|t| t.kind.is_number()).collect();
@@ -314,6 +399,7 @@ fn run_case(im: &mut Impl, s: &Spec) -> Outcome {
             if covered { "1" } else { "0" }.into(),
         ));
     }
+    let extended = !covered && ctx_extended(&mut im.classes, &pre, &num, &sfx, &post);
     let want = ordinal_of_decimal(&num);
     let wrong = s.sfx.to_lowercase() != want;
     let p = pre.len() + num.len();
@@ -360,7 +446,10 @@ fn run_case(im: &mut Impl, s: &Spec) -> Outcome {
             Err(m) => Err(("panic", format!("re-linting the fixed text panicked: {m}"))),
         }
     })();
-    o.counts.push(format!("ctx:{}", if covered { "covered" } else { "outside_theorem" }));
+    o.counts.push(format!("ctx:{}", if covered { "covered" } else if extended { "extended(search only: other correct ordinals around)" } else { "outside_theorem" }));
+    if covered && matches!(post.first(), Some('\'') | Some('\u{2019}')) {
+        o.counts.push(format!("ctx:covered,apostrophe_follows,suffix_{}", if wrong { "wrong" } else { "right" }));
+    }
     o.counts.push(format!("suffix:{}", if wrong { "wrong" } else { "right" }));
     o.counts.push(format!("digits:{}", num.len()));
     match verdict {
@@ -370,6 +459,8 @@ fn run_case(im: &mut Impl, s: &Spec) -> Outcome {
             }
             if covered {
                 o.counts.push("oracle:held(covered)".into());
+            } else if extended {
+                o.counts.push("oracle:held(extended)".into());
             } else {
                 o.counts.push("oracle:held(outside_theorem)".into());
             }
@@ -378,18 +469,13 @@ fn run_case(im: &mut Impl, s: &Spec) -> Outcome {
             if covered {
                 // inside the class the theorem covers the property is demanded
                 o.fails.push((class, what));
+            } else if extended {
+                // search only: the instance shares the document with other, correct ordinals
+                o.fails.push((class, format!("{what} (in a document with other, correct ordinals)")));
             } else {
                 // outside: the lexer deliberately reads the characters differently (regex-ish, host names, words …);
                 // recorded in the distribution, demanded only through the correspondence with the model
                 o.counts.push(format!("deviation_outside_theorem:{class}"));
-                // … except the possessive / contraction position `<n><sfx>'s`, which is an ordinary sentence
-                // position: everything else about the context is inside the class, the suffix word is merely
-                // followed by an apostrophe and a word (condense_contractions runs before condense_number_suffixes)
-                let poss = post.len() >= 2 && is_apostrophe(post[0]) && im.classes.bits(post[1]) & 4 != 0
-                    && ctx_covered_opt(&mut im.classes, &pre, &num, &sfx, &post, false);
-                if poss {
-                    o.fails.push((if class == "missed_lint" { "missed_lint_before_apostrophe" } else { class }, what));
-                }
             }
         }
     }
@@ -419,7 +505,7 @@ fn random_n(r: &mut Rng) -> u64 {
 }
 
 const SEPS_BEFORE: &[&str] = &[" ", " ", " ", "\t", "\n", "\n\n", "(", "\"", "“", "$", "-", "—", "–", ",", ";", ":", "!", "?", "#", "*", "/", "~", "'", "’", "{", "<", "=", "+", "&", "%", "^", "|", "_", "€", "\u{a0}", "世", "😀", "  ", " \t", ". ", "... ", "? ", "]", ")"];
-const SEPS_AFTER: &[&str] = &[" ", " ", " ", "\t", "\n", "\n\n", ")", "\"", "”", ".", ". ", ".\n", "...", "…", ",", ", ", ";", ":", "!", "?", "-", "—", "]", "}", ">", "/", "*", "%", "&", "=", "+", "|", "_", "€", "\u{a0}", "世", "😀", "  ", ".)", "?!", ". .", ".'", ".\""];
+const SEPS_AFTER: &[&str] = &[" ", " ", " ", "\t", "\n", "\n\n", ")", "\"", "”", ".", ". ", ".\n", "...", "…", ",", ", ", ";", ":", "!", "?", "-", "—", "]", "}", ">", "/", "*", "%", "&", "=", "+", "|", "_", "€", "\u{a0}", "世", "😀", "  ", ".)", "?!", ". .", ".'", ".\"", "'s", "’s", "'", "’", "'s ", "'S", "’d ", "'é"];
 const WORDS: &[&str] = &["The", "the", "a", "item", "place", "on", "of", "May", "café", "s", "x", "as", "is", "I", "floor", "Über", "st", "nd", "th", "e", "E"];
 
 /// a left/right context inside the class covered by C17_lint_iff
@@ -436,7 +522,7 @@ fn covered_ctx(r: &mut Rng) -> (String, String) {
     if r.chance(5, 6) {
         post.push_str(r.s(SEPS_AFTER));
         for _ in 0..r.below(4) {
-            // a '.' must not be followed by a host-name character, a word must not follow an apostrophe
+            // a '.' must not be followed by a host-name character
             if post.ends_with('.') {
                 post.push(' ');
             }
@@ -452,6 +538,41 @@ fn hostile_ctx(r: &mut Rng) -> (String, String) {
     const L: &[&str] = &["", "a", "x.", "a.b-", "[", "[a", "[a-", "e", "1e", "1.", "0x", "0", "$", "-", "+", ".", "..", "v", "#", "No.", "(", "1,", "1 ", "12", "www.", "'", "s'", "é", "²", "٣", "½"];
     const R: &[&str] = &["", "s", "'s", "’s", "'", "' s", " 's", "]", "-]", ".com", ".Then", ".x", "-x.y", "..", "...", ".", ". ", ".5", "e5", "1", "a", "é", "²", "٣", ",000", "-", "-th", "th", "st", "+", "=", "_", "'S", "'é", "'1"];
     (r.s(L).to_string(), r.s(R).to_string())
+}
+
+/// literals around the f64 overflow threshold 2^1024 - 2^970 = 1.797693134862315807937e308 (lex_number only
+/// accepts a finite parse and falls back to a shorter prefix), zero mantissas, huge and negative exponents
+fn float_edge(r: &mut Rng) -> String {
+    const F: &[&str] = &[
+        "1e999", "1e308", "1e309", "2e308", "1.8e308", "1.7976931348623157e308", "1.7976931348623158e308",
+        "1.7976931348623159e308", "1.797693134862315807e308", "1.797693134862315808e308", "17976931348623157e292",
+        "17976931348623159e292", "0e999", "0.0e9999", "00e400", "1e-999", "1e-99999999999999999999", "123456789e300",
+        "12345678.9e301", "0.00001e313", "0.00001e314", "1e+400", "1E400", "1e0400", "1e400", "1e401", "9e999999999999999999999",
+        "1.e308", "1.e309", ".5e309", "5.e-1", "1e30", "1e3000", "4e3084", "1.0e3080",
+    ];
+    match r.below(8) {
+        0 => {
+            // an integer of 305..312 digits: finite up to 309 digits when it starts low enough
+            let lead = r.s(&["1", "17", "179769313486231570", "179769313486231581", "18", "9"]).to_string();
+            let total = r.range(305, 313) as usize;
+            let mut t = lead.clone();
+            while t.len() < total {
+                t.push('0');
+            }
+            t
+        }
+        1 => format!("{}e{}", r.range(1, 99999), r.range(290, 312)),
+        2 => format!("{}.{}e{}", r.range(0, 20), r.range(0, 99999), r.range(300, 312)),
+        3 => format!("0.{}{}e{}", "0".repeat(r.below(6) as usize), r.range(1, 999), r.range(305, 320)),
+        _ => r.s(F).to_string(),
+    }
+}
+
+/// `[A-Za-z0-9]['?]s` in front of all sorts of characters (lex_plural_digit's look-ahead uses char::is_alphanumeric)
+fn plural_edge(r: &mut Rng) -> String {
+    const HEAD: &[&str] = &["a", "A", "x", "Z", "2", "9", "0", "é", "1990", "the 3", " b"];
+    const NEXT: &[&str] = &["", " ", ".", ",", "é", "ß", "α", "ж", "世", "٣", "²", "½", "e", "1", "t", "'", "’", "-", "_", "😀", "\u{a0}", "É", "ſ", "ª"];
+    format!("{}{}s{}", r.s(HEAD), if r.chance(1, 3) { "'" } else { "" }, r.s(NEXT))
 }
 
 fn spec(pre: &str, num: &str, sfx: &str, post: &str, origin: &'static str, lex_case: bool) -> Spec {
@@ -523,7 +644,7 @@ fn run_batch(rep: &mut Report, specs: &[Spec], threads: usize) {
 fn main() {
     let (a, corpus) = hv::cli();
     let mut rep = Report::new(&a.out);
-    rep.rule = "texts pre ++ decimal(n) ++ suffix ++ post: corpus; `The <n><sfx> item.` for random n < 2^53 (teens of every hundred, powers of ten, 2^53-1 …) x 16 casings; contexts drawn inside the class covered by C17_lint_iff (oracle demanded) and hostile contexts outside it (letters, dots, brackets, apostrophes, digits glued on: correspondence with the model + deviations counted); sentence positions from the shared grammar; a free-text stream (correspondence only); thorough adds every n < 10^5 x 16 casings and 10^6 random n < 2^53. non-trivial = distinct text with a wrong suffix for which the full oracle (one lint, exact span, exact suggestion, fix is a fix point) held".into();
+    rep.rule = "texts pre ++ decimal(n) ++ suffix ++ post: corpus; documents in which the instance stands among other, correct ordinals (search only); `The <n><sfx> item.` for random n < 2^53 (teens of every hundred, powers of ten, 2^53-1 …) x 16 casings; contexts drawn inside the class covered by C17_lint_iff (oracle demanded) and hostile contexts outside it (letters, dots, brackets, digits glued on: correspondence with the model + deviations counted); the possessive position `<n><sfx>'s` (covered since dcfd71f); sentence positions from the shared grammar; a free-text stream and a lexer-edge stream (float literals around the f64 overflow threshold, plural-digit look-aheads: correspondence + two lexer postconditions); thorough adds every n < 10^5 x 16 casings and 10^6 random n < 2^53. non-trivial = distinct text with a wrong suffix for which the full oracle (one lint, exact span, exact suggestion, fix is a fix point) held".into();
     check_ascii_laws(&mut rep);
     let threads = std::thread::available_parallelism().map(|n| n.get()).unwrap_or(4).min(16);
     // corpus / replay first
@@ -575,6 +696,60 @@ fn main() {
         let t = if r.chance(1, 3) { gen::malformed(&mut r, 40) } else { gen::any_text(&mut r) };
         let t: String = t.chars().take(160).collect();
         specs.push(spec(&t, "", "", "", "free_text", true));
+    }
+    // (7) the possessive / contraction position (FC17a, fixed by dcfd71f): inside the covered class now
+    for _ in 0..a.scale(300, 5000) {
+        let n = random_n(&mut r);
+        let pre = r.s(&["the ", "The ", "", "in (", "May "]).to_string();
+        let post = format!("{}{}{}", r.s(&["'", "’"]), r.s(&["s", "S", "d", "ll", "é", "", " ", "s.", "t"]), r.s(&["", " value", " turn.", ", then", "\n\nNext"]));
+        specs.push(spec(&pre, &n.to_string(), r.s(&CASINGS), &post, "apostrophe_follows", true));
+    }
+    // (9) the instance shares the document with other ordinals, all of them correct (search only, see ctx_extended)
+    for _ in 0..a.scale(400, 8000) {
+        let neighbour = |r: &mut Rng| {
+            let n = random_n(r) % 1_000_000_000_000_000;
+            let d: Vec<char> = n.to_string().chars().collect();
+            let sx = ordinal_of_decimal(&d);
+            let sx = match r.below(4) { 0 => sx.to_uppercase(), _ => sx.to_string() };
+            format!("{n}{sx}{}", r.s(&["", "", ",", ".", ";", "!"]))
+        };
+        let mut pre = String::new();
+        for _ in 0..r.below(3) {
+            pre.push_str(r.s(WORDS));
+            pre.push_str(r.s(&[" ", " ", "\n", "\n\n", "  "]));
+            if r.chance(2, 3) {
+                pre.push_str(&neighbour(&mut r));
+                pre.push_str(r.s(&[" ", " ", "\n", " and ", " in May, "]));
+            }
+        }
+        let mut post = r.s(&["", " ", ". ", ", ", "'s ", "’s ", "\n", " in June "]).to_string();
+        if !post.is_empty() {
+            for _ in 0..r.below(3) {
+                if !post.ends_with(char::is_whitespace) {
+                    post.push(' ');
+                }
+                if r.chance(2, 3) {
+                    post.push_str(&neighbour(&mut r));
+                    post.push(' ');
+                }
+                post.push_str(r.s(WORDS));
+            }
+        }
+        let n = random_n(&mut r);
+        specs.push(spec(&pre, &n.to_string(), r.s(&CASINGS), &post, "other_ordinals_around", true));
+    }
+    // (8) lexer edges the model follows since b5c1992 / 7202fd4: float literals around the overflow threshold and
+    //     plural-digit look-aheads, alone, glued to a suffix, and in front of an ordinal
+    for _ in 0..a.scale(500, 8000) {
+        let e = if r.chance(1, 2) { float_edge(&mut r) } else { plural_edge(&mut r) };
+        let t = match r.below(5) {
+            0 => e,
+            1 => format!("{}{}", e, r.s(&CASINGS)),
+            2 => format!("{}{} {}", r.s(&["", "x ", "-", "$", "("]), e, r.s(WORDS)),
+            3 => format!("{}{}{}", e, r.s(&[" ", ", ", " the ", "\n"]), r.s(&["2st", "3rd", "11th.", "22ND"])),
+            _ => format!("{} {}{}", r.s(WORDS), e, r.s(SEPS_AFTER)),
+        };
+        specs.push(spec(&t, "", "", "", "lexer_edge", true));
     }
     run_batch(&mut rep, &specs, threads);
     if a.thorough() {
